@@ -1,11 +1,13 @@
-(* C20 requests: 2000 model observation, 2001 property oracle. *)
+(* C20 requests: 2000 model observation, 2001 property oracle, 2002 own-output shape instance.
+   2002 [fmt; payload] -> [document assembled by the shape of spec/SpecOwn.v; hypotheses of the own-output theorem hold?]
+        fmt 1 MicroDVD: payload [d1; d2; txt0; [[prefix; txt] ...]]     fmt 2 WebVTT: payload [piece ...]
+        fmt 4 SRT:      payload [[timing line; text] ...] (non-empty)    fmt 5 SCC:    payload body             *)
 From Coq Require Import List ZArith QArith Bool.
 From PV Require Import lib.Sx lib.Str lib.Result.
-From PV Require Import model.Generated model.Detect spec.SpecDetect extract.OrCommon.
+From PV Require Import model.Generated model.Detect spec.SpecDetect spec.SpecOwn extract.OrCommon.
 Import ListNotations.
 Open Scope Z_scope.
 
-(* ---- C20 ------------------------------------------------------------------ *)
 Definition req_c20_model (arg : sx) : sx :=
   match arg with
   | SS s => SL [of_list (fun r => of_result of_bool (detect_of r s)) documented_order;
@@ -17,16 +19,44 @@ Definition req_c20_ok (arg : sx) : sx :=
   match arg with
   | SL [SI ne; ds; df] =>
       match sx_bool (SI ne), sx_listof (sx_result sx_bool) ds, sx_result (sx_opt sx_int) df with
-      | Some ne, Some ds, Some df => of_bool (ok_detect ne ds df)
+      | Some ne, Some ds, Some df => SL [of_bool (ok_detect ne ds df); of_bool (all_sniffers_total ds)]
       | _, _, _ => bad
       end
   | _ => bad
   end.
 
+Definition sx_pair (x : sx) : option (str * str) :=
+  match x with SL [SS a; SS b] => Some (a, b) | _ => None end.
+
+Definition req_c20_shape (arg : sx) : sx :=
+  match arg with
+  | SL [SI 4; cues] =>
+      match sx_listof sx_pair cues with
+      | Some ((tl, txt) :: rest) =>
+          SL [SS (srt_document ((tl, txt) :: rest));
+              of_bool (srt_first_ok tl && forallb srt_cue_ok ((tl, txt) :: rest))]
+      | _ => bad
+      end
+  | SL [SI 1; SL [SS d1; SS d2; SS txt; rest]] =>
+      match sx_listof sx_pair rest with
+      | Some rest =>
+          let cues := (frames_prefix d1 d2, txt) :: rest in
+          SL [SS (mdvd_document cues); of_bool (ascii_digits d1 && ascii_digits d2 && forallb mdvd_cue_ok cues)]
+      | None => bad
+      end
+  | SL [SI 2; pieces] =>
+      match sx_listof sx_str pieces with
+      | Some ps => SL [SS (vtt_document ps); of_bool (forallb (free before_vtt) ps)]
+      | None => bad
+      end
+  | SL [SI 5; SS body] => SL [SS (scc_document body); of_bool (forallb scc_body_char body)]
+  | _ => bad
+  end.
 
 Definition dispatch (code : Z) (arg : sx) : option sx :=
   match code with
   | 2000 => Some (req_c20_model arg)
   | 2001 => Some (req_c20_ok arg)
+  | 2002 => Some (req_c20_shape arg)
   | _ => None
   end.
